@@ -2,18 +2,17 @@ INIT MCInit
 NEXT Next
 CONSTANTS
   Procs = {"p1", "p2"}
-  Probes = {"q1"}
-  Datasets = {"d1"}
+  Probes = {"q1", "q2"}
+  Datasets = {"d1", "d2"}
   NRetries = 1
   ProbeRetries = 3
-  MaxLen = 2
-  MaxFaults = 2
+  MaxLen = 1
+  MaxFaults = 1
   ErrTail = FALSE
   UrlOf <- IdMap
   SlotOf <- IdMap
   FlagSet <- FlagsMain
 VIEW View
-ACTION_CONSTRAINT EmitEdge
 INVARIANT TypeOK
 INVARIANT CacheSound
 INVARIANT NeverUnverified
@@ -21,6 +20,5 @@ INVARIANT OfflineWhenCached
 INVARIANT RetryBound
 INVARIANT NoCrossTalk
 INVARIANT ProbeDone
-INVARIANT EmitInit
 PROPERTY OfflineStep
 CHECK_DEADLOCK FALSE
